@@ -9,7 +9,7 @@ RULE = ("histories over the C08 pool interleaving observe / observe(remove=True)
         "random expressions x several roots (n-fold registration, removal in any order, one removal too many, "
         "never-registered removal) with graph mutations, failing registrations/removals (missing trait, "
         "non-container where a container is required, trait of a non-HasTraits value, injected at every position "
-        "of a random expression) and collection of a handler's owner; after EVERY op every Int trait is probed and "
+        "of a random expression; the oracle demands unchanged notifier populations after every call that raises) and collection of a handler's owner; after EVERY op every Int trait is probed and "
         "the notifier populations are printed; `#gc` cases (implementation only) drop the observing object or the "
         "handler's owner at every point of a history, gc.collect(), check the weakref died and probe. "
         "non-trivial = an op delivered, changed a population or raised; distinct = distinct output line")
@@ -29,10 +29,19 @@ EXHAUSTIVE = {"quick": False, "thorough": True}
 F4_WITNESS = "obs|3|N,N,N|addt 1 extra 0;setl 0 kids 100 [1,2];obs 0 0 t.kids.1.0 li.1.0 then t.extra.1.0 then"
 
 
+# regression corpus for the repaired findings F4 / F4b / F4c (fix 4ea62e3): on the
+# unrepaired code these give `registration-not-rolled-back:completed-sibling-subtree`,
+# `…:completed-sibling-graph` and `removal-not-rolled-back:completed-sibling-subtree`
+F4B_WITNESS = "obs|3|N,N,N|addt 0 extra 0;obs 0 0 t.extra.1.0 t.nosuch.1.0 or"
+F4C_WITNESS = ("obs|3|2,N,N|obs 0 0 t.child.1.0 t.value.1.0 then;set 0 child 2;"
+               "unobs 0 0 t.child.1.0 t.value.1.0 then")
+
+
 def corpus():
     return [
         F4_WITNESS,
-        "obs|3|N,N,N|addt 0 extra 0;obs 0 0 t.extra.1.0 t.nosuch.1.0 or",
+        F4B_WITNESS,
+        F4C_WITNESS,
         "obs|3|N,N,N|set 0 child 1;obs 0 0 t.child.1.0 t.value.1.0 then;obs 0 0 t.child.1.0 t.value.1.0 then;"
         "unobs 0 0 t.child.1.0 t.value.1.0 then;unobs 0 0 t.child.1.0 t.value.1.0 then;unobs 0 0 t.child.1.0 t.value.1.0 then",
         "obs|3|N,N,N|set 0 child 1;obs 0 0 t.child.1.0 t.value.1.0 then;kill 0;set 0 child 2",
